@@ -1752,11 +1752,13 @@ impl ToBitStream for Streaminfo {
         w.write::<24, _>(self.maximum_frame_size)?;
         w.write::<20, _>(self.sample_rate)?;
         w.write::<3, _>(self.channels)?;
+        // subtract from the plain bit count, since a signed
+        // bit count can't drop below 1 bit for 1-bit streams
         w.write_count(
             self.bits_per_sample
+                .count()
                 .checked_sub::<0b11111>(1)
-                .unwrap()
-                .count(),
+                .unwrap(),
         )?;
         w.write::<36, _>(self.total_samples)?;
         w.write_from(self.md5.unwrap_or([0; 16]))?;
